@@ -509,6 +509,36 @@ func TestCheck(t *testing.T) {
 			r.Sample(map[string]any{"stream": names, "compositions": 1 << (len(l) - 1)})
 		}
 	}
+	// (0) [runs first, so that a time budget never cuts it off] two levels of ids: every stream of 5 and 6 records over 3 x 3 ids up to renaming of
+	// the ids (first occurrences in increasing order)
+	canonical := func(l []int) bool {
+		nu, nc := 0, 0
+		for _, x := range l {
+			u, c := x/3, x%3
+			if u > nu || c > nc {
+				return false
+			}
+			if u == nu {
+				nu++
+			}
+			if c == nc {
+				nc++
+			}
+		}
+		return true
+	}
+	for n := 5; n <= mc.Pick(r, 5, 6); n++ {
+		mc.Sequences(9, n, func(l []int) bool {
+			if len(l) == n && canonical(l) {
+				m := make([]int, n)
+				for i, x := range l {
+					m[i] = 200 + x
+				}
+				visit(m)
+			}
+			return true
+		})
+	}
 	// (1) full alphabet up to fullLen
 	mc.Sequences(nl, fullLen, func(l []int) bool {
 		if len(l) > 0 {
@@ -577,36 +607,6 @@ func TestCheck(t *testing.T) {
 				m := make([]int, n)
 				for i, x := range l {
 					m[i] = 100 + i + len(urlsX)*x
-				}
-				visit(m)
-			}
-			return true
-		})
-	}
-	// (4c) two levels of ids: every stream of 5 and 6 records over 3 x 3 ids up to renaming of
-	// the ids (first occurrences in increasing order)
-	canonical := func(l []int) bool {
-		nu, nc := 0, 0
-		for _, x := range l {
-			u, c := x/3, x%3
-			if u > nu || c > nc {
-				return false
-			}
-			if u == nu {
-				nu++
-			}
-			if c == nc {
-				nc++
-			}
-		}
-		return true
-	}
-	for n := 5; n <= mc.Pick(r, 5, 6); n++ {
-		mc.Sequences(9, n, func(l []int) bool {
-			if len(l) == n && canonical(l) {
-				m := make([]int, n)
-				for i, x := range l {
-					m[i] = 200 + x
 				}
 				visit(m)
 			}
